@@ -29,7 +29,7 @@ RULE = (
     "non-trivial = the all-on run has a non-zero scale-variation key and (for mu_F) the prediction is non-zero"
 )
 ASSUMPTIONS = [
-    "grid G6 (plus L7, G9, D5 for a sub-lattice); Q2 in {4,30,1e5} (n_f = 4,5,6 in ZM-VFNS; fixed in FFNS); mu_F identities for PTO 1..2 only (the library has no O(a_s^3) factorisation kernels: keys (3,0,0,j>0) are not claimed), mu_R identities up to PTO 3",
+    "grid G6 (plus L7, G9, D5 for a sub-lattice); Q2 in {4,30,1e5} (n_f = 4,5,6 in ZM-VFNS; fixed in FFNS) plus, in ZM-VFNS, Q2 exactly at, one ulp below and one ulp above each of the three matching scales for the default card and for kcThr=0.5,kbThr=2,ktThr=0.5; mu_F identities for PTO 1..2 only (the library has no O(a_s^3) factorisation kernels: keys (3,0,0,j>0) are not claimed), mu_R identities up to PTO 3",
     "x-space DGLAP operators: reference convolution (ref_conv on ref_basis) of hand-written LO splitting functions and of the library's NLO / convolved splitting kernels "
     "(their distribution consistency is C03, the convolved labels are tied to their factors by Mellin moments in the 'moments' states, NLO moments are benchmarked against eko by the test-suite)",
     "flavour structure written out by hand (valence/sea decomposition); heavy-quark rows |pid|>n_f (intrinsic channel) must carry no factorisation logs",
@@ -64,6 +64,18 @@ def _states_base(tier, seed):
     # other interpolation set-ups (linear grid, degree 3 and 5): the splitting operators are rebuilt by the reference on the same grid
     for g, k, p in itertools.product(["L7", "G9", "D5"], ["F2", "FL", "F3"], ["NC", "CC"]):
         out.append({"t": "cell", "kind": k, "heavyness": "total", "process": p, "scheme": "ZM-VFNS", "pto": 2, "Q2": 30.0, "grid": g})
+    # Q2 exactly at / one ulp below each matching scale (default card and a card with kThr != 1): the scale-variation terms must use the SAME n_f
+    # as the central coefficient functions (threshold convention: (m*k)^2 <= Q2 counts); ratios are powers of two so that (m*k)^2 is unambiguous in floats
+    kcard = {"kcThr": 0.5, "kbThr": 2.0, "ktThr": 0.5}
+    thr_cells = [("F2", "total", "NC", 2), ("FL", "total", "EM", 1)] if tier == "quick" else [("F2", "total", "NC", 2), ("FL", "total", "EM", 1), ("F3", "total", "CC", 2), ("F2", "light", "NC", 3), ("g1", "total", "NC", 2)]
+    for (k, h, p, pto), th in itertools.product(thr_cells, [{}, kcard]):
+        for q in "cbt":
+            m2 = (cards.BASE_THEORY[f"m{q}"] * th.get(f"k{q}Thr", 1.0)) ** 2
+            for q2 in (m2, float(np.nextafter(m2, 0.0))) + ((float(np.nextafter(m2, np.inf)),) if tier == "thorough" else ()):
+                st = {"t": "cell", "kind": k, "heavyness": h, "process": p, "scheme": "ZM-VFNS", "pto": pto, "Q2": q2}
+                if th:
+                    st["theory"] = dict(th)
+                out.append(st)
     for nf in (3, 4, 5, 6):
         out.append({"t": "moments", "nf": nf})
     # several n_f regions inside ONE runner (the splitting-operator cache of the scale-variation manager is shared by all points and observables)
@@ -103,7 +115,8 @@ def _mats(nf, grid="G6"):
 def _nf(st):
     fns, nfff = cards.SCHEMES[st["scheme"]]
     if fns == "ZM-VFNS":
-        return 3 + sum(1 for m in (1.51, 4.92, 172.5) if m * m <= st["Q2"])
+        th = dict(cards.BASE_THEORY, **st.get("theory", {}))
+        return 3 + sum(1 for q in "cbt" if (th[f"m{q}"] * th[f"k{q}Thr"]) ** 2 <= st["Q2"])
     return nfff
 
 
@@ -199,7 +212,7 @@ def execute(st):
     for ren, fact in ((True, True), (True, False), (False, True), (False, False)):
         c = {k: st[k] for k in ("process", "scheme", "pto")}
         c["grid"] = st.get("grid", "G6")
-        c["theory"] = {"RenScaleVar": ren, "FactScaleVar": fact}
+        c["theory"] = dict(st.get("theory", {}), RenScaleVar=ren, FactScaleVar=fact)
         out, status = rel.try_run(c, obs)
         if status != "ok":
             return {"violations": [], "nontrivial": False, "outcome": status, "transitions": 1, "info": {"n_" + status.split(":")[0]: 1}}
